@@ -98,7 +98,10 @@ fn vals_for(ch: &mut Choices, attrs: &[(u16, u16, i64)], nids: usize) -> Vec<AV>
         .iter()
         .map(|(name, form, _)| match (*name, *form) {
             (0x01, _) => AV::Sibling,
-            (_, F_INDIRECT) => match ch.below(4) {
+            (_, F_INDIRECT) => match ch.below(6) {
+                // (a vendor form: its code takes two LEB128 bytes)
+                4 => AV::Indirect(F_GNU_REF_ALT, Box::new(AV::U(ch.biased(24)))),
+                5 => AV::Indirect(F_GNU_STRP_ALT, Box::new(AV::U(ch.biased(24)))),
                 0 => AV::Indirect(F_DATA4, Box::new(AV::U(ch.u32() as u64))),
                 1 => AV::Indirect(F_UDATA, Box::new(AV::U(ch.biased(40)))),
                 2 => AV::Indirect(F_STRING, Box::new(AV::Bytes(vec![b'q'; ch.below(5)]))),
@@ -373,7 +376,21 @@ fn check_unit(header: &UnitHeader<Rdr>, rec: &UnitRec, spec: &UnitSpec, da: &Deb
             ensure_eq!(UnitOffset(probe).to_debug_info_offset(header).map(|o| o.0), Some(rec.offset + probe), "c02/header/to_debug_info_offset");
             let back = gimli::DebugInfoOffset(rec.offset + probe).to_unit_offset(header).map(|o| o.0);
             ensure_eq!(back, if inb { Some(probe) } else { None }, "c02/header/DebugInfoOffset::to_unit_offset", "probe {}", probe);
+            // a unit of .debug_info has no position in .debug_types, and the other way round
+            ensure_eq!(UnitOffset(probe).to_debug_types_offset(header).map(|o| o.0), None, "c02/header/to_debug_types_offset-of-info-unit");
+            ensure_eq!(gimli::DebugTypesOffset(rec.offset + probe).to_unit_offset(header).map(|o| o.0), None, "c02/header/DebugTypesOffset::to_unit_offset-of-info-unit");
+            ensure_eq!(gimli::DebugInfoOffset(rec.offset + probe).to_unit_section_offset(header).map(|o| o.0), Some(rec.offset + probe), "c02/header/DebugInfoOffset::to_unit_section_offset");
+        } else {
+            ensure_eq!(UnitOffset(probe).to_debug_types_offset(header).map(|o| o.0), Some(rec.offset + probe), "c02/header/to_debug_types_offset");
+            let back = gimli::DebugTypesOffset(rec.offset + probe).to_unit_offset(header).map(|o| o.0);
+            ensure_eq!(back, if inb { Some(probe) } else { None }, "c02/header/DebugTypesOffset::to_unit_offset", "probe {}", probe);
+            ensure_eq!(gimli::DebugTypesOffset(rec.offset + probe).to_unit_section_offset(header).map(|o| o.0), Some(rec.offset + probe), "c02/header/DebugTypesOffset::to_unit_section_offset");
+            ensure_eq!(UnitOffset(probe).to_debug_info_offset(header).map(|o| o.0), None, "c02/header/to_debug_info_offset-of-types-unit");
+            ensure_eq!(gimli::DebugInfoOffset(rec.offset + probe).to_unit_offset(header).map(|o| o.0), None, "c02/header/DebugInfoOffset::to_unit_offset-of-types-unit");
         }
+        // the section-relative offset type converts back by the same bounds
+        let uso = UnitOffset(probe).to_unit_section_offset(header);
+        ensure_eq!(uso.to_unit_offset(header).map(|o| o.0), if inb { Some(probe) } else { None }, "c02/header/UnitSectionOffset::to_unit_offset", "probe {}", probe);
     }
     // ---- byte ranges of the unit: views of exactly the section bytes between two unit offsets
     {
@@ -875,7 +892,7 @@ impl Prop for C02 {
         check_code_sequence(&code_sequence(u64::from_le_bytes(a), data[0] as usize), cx)
     }
     fn rule(&self) -> &'static str {
-        "random forests: 1-3 units per section (.debug_info with every DWARF 5 unit type and v2-4 compile units; .debug_types with v2-4 type units), each a generated tree of 1-40 entries (shapes: random, deep chain, wide, leaf-only, empty child lists, trailing null padding), units differing in version/format/address size, shared or separate abbreviation tables, abbreviation code schemes {sequential, permuted declaration order, sparse, huge >= 2^63, dense-sparse-dense, aliasing modulo 2^32}, DW_AT_sibling none / on all parents / on a subset in forms ref1/2/4/8/udata. Oracle: the assembler's record (offset, depth, tag, children flag, attribute count, parent) per entry. Compared: raw read_entry with next_offset/next_depth, the same walk with read_abbreviation + skip_attributes (attributes incl. DW_FORM_indirect after fixed-size and block forms), next_dfs, next_entry incl. nulls, next_sibling from every parent, full and children-only walks of the tree iterator from every entry, entry()/entries_raw/entries_tree/entries_at_offset positioned at every entry and null, header accessors and offset conversions, Abbreviations::get for present and absent (+-1, +-2^32, |2^63) codes; separate mode: tables with a duplicated code must be rejected; exhaustive mode: every declaration order of up to 5 (thorough: 7) codes over {1..6, 2^40, 2^64-1} is rejected exactly when a code repeats and otherwise maps every code to its own declaration. Non-trivial = >=5 entries, depth >=3 and a node with >=2 children that themselves have children; distinct by choice string."
+        "random forests: 1-3 units per section (.debug_info with every DWARF 5 unit type and v2-4 compile units; .debug_types with v2-4 type units), each a generated tree of 1-40 entries (shapes: random, deep chain, wide, leaf-only, empty child lists, trailing null padding), units differing in version/format/address size, shared or separate abbreviation tables, abbreviation code schemes {sequential, permuted declaration order, sparse, huge >= 2^63, dense-sparse-dense, aliasing modulo 2^32}, DW_AT_sibling none / on all parents / on a subset in forms ref1/2/4/8/udata. Oracle: the assembler's record (offset, depth, tag, children flag, attribute count, parent) per entry. Compared: raw read_entry with next_offset/next_depth, the same walk with read_abbreviation + skip_attributes (attributes incl. DW_FORM_indirect after fixed-size and block forms), next_dfs, next_entry incl. nulls, next_sibling from every parent, full and children-only walks of the tree iterator from every entry, entry()/entries_raw/entries_tree/entries_at_offset positioned at every entry and null, header accessors and offset conversions, Abbreviations::get for present and absent (+-1, +-2^32, |2^63) codes; separate mode: tables with a duplicated code must be rejected; exhaustive mode: every declaration order of up to 5 (thorough: 7) codes over {1..6, 2^40, 2^64-1} is rejected exactly when a code repeats and otherwise maps every code to its own declaration. Non-trivial = >=5 entries, depth >=3 and a node with >=2 children that themselves have children; distinct by choice string. Later additions: palettes with the supplementary-file forms; sibling pointers on entries without children; the std Iterator view of the unit-header iterators."
     }
     fn assumptions(&self) -> Vec<&'static str> {
         vec![
